@@ -150,6 +150,17 @@ CLAIMS = {
         note="NOT decided: spline/Delaunay interpolation (exactness at samples, min/max bound, hull), "
              "line rasterisation, image loading - compiled code, stubbed by recording callables",
         ref="§4 C19"),
+    "C18": dict(
+        text="Dispatch and first-occurrence rule: 9 report templates of the four families are tokenised by "
+             "the REAL regex (rendered with sample decimals); every numeric field is then a symbolic real "
+             "and the real _on_device_message/_parse_message/_update_param run: z3 shows for all values "
+             "that each reported letter gets the value that appears first, unmentioned letters keep "
+             "earlier readings, look-ups are case-insensitive, ok/error lines acknowledge / store a "
+             "DeviceError and plain reports do neither; also for two reports in a row.",
+        note="NOT decided: the regex and float() on arbitrary digit strings (signs, exponents, "
+             "malformed numbers) - digits are abstracted, float() of a field shimmed; templates "
+             "are a finite enumeration",
+        ref="§4 C18"),
     "C07": dict(
         text="Inductive step of I7: after any of 96 call shapes from an arbitrary consistent state "
              "(symbolic feed, power, temperatures, E parameter, tool number) every state property "
@@ -169,8 +180,6 @@ CLAIMS = {
 NOT_APPLICABLE = {
     "C16": "property is about real thread schedules (threading.Event, reader thread, polling); no "
            "symbolic engine here executes multi-threaded Python",
-    "C18": "regex/strip/lower/float() parsing of symbolic strings does not confirm any path within "
-           "budget (measured); z3 strings cannot reproduce re.findall leftmost-greedy semantics",
 }
 
 
